@@ -24,6 +24,7 @@ RULES = {
     "R15.2": "capture gets a clone before every forward when installed; no forward without its capture copy",
     "R15.3": "recv errors and send errors end proxy with the error",
     "R15.4": "chain clause: distinct ROUTER keys (C04 R04.3) and no dropped ready event (C06 R06.1/R06.2), re-evaluated",
+    "R15.F": "foundation clauses re-evaluated as necessary conditions: " + ", ".join(['decoder']),
 }
 
 
@@ -60,7 +61,12 @@ def arm_sources(poll):
     return out
 
 
+DEPENDS = ['decoder']     # foundation groups re-evaluated as necessary conditions (rules/found.py)
+
+
 def run(ctx, f, rep):
+    from . import found
+    found.import_groups(ctx, f, rep, 'C15', DEPENDS)
     bs = [b for b in f.bodies if b.path.endswith("::proxy::{closure#0}") and b.j.get("coroutine_kind")]
     rep.floor("R15.1", "proxy coroutine", len(bs), 1)
     for b in bs:
